@@ -196,6 +196,7 @@ def fold_semantics(f):
         found = False
         its = list(lp.iteration_paths(s))
         acc_locals = {e[2][0][1] for p in its for e in p.events if e[0] == "call" and e[1] == "action::Action::merge" and e[2][0][0] in ("local", "havoc")}
+        acc_places = {e[2][0] for p in its for e in p.events if e[0] == "call" and e[1] == "action::Action::merge" and e[2][0][0] == "field"}
         for p in its:
             calls = [e for e in p.events if e[0] == "call" and e[1] == "action::Action::from_route_rule"]
             if not calls:
@@ -220,6 +221,9 @@ def fold_semantics(f):
                 if e[0] == "call" and e[1] == "action::Action::merge" and (e[2][1] == payload or (e[2][1][0] == "local" and e[2][1][1] in holders)):
                     eff = "merge"
                 if e[0] == "set" and e[1] in acc_locals and (e[3] == payload or (e[3][0] == "local" and e[3][1] in holders)):
+                    eff = "assign"
+                # the accumulator may also be a field of a local state structure
+                if e[0] == "write" and e[1] in acc_places and (e[2] == payload or (e[2][0] == "local" and e[2][1] in holders)):
                     eff = "assign"
             returns = p.end[0] == "ret" or (p.end[0] == "stop" and p.end[1] in lp.tail_blocks() and p.end[1] != lp.exit and lp.exit not in p.blocks)
             rows[(produced, reset, stop)] = (eff, returns)
